@@ -73,6 +73,7 @@ def h_dry(entry: int, pres: int, f: int, g: int, mrel: int, dstate: int, pstate:
     assert (f in (4, 5) or g in (4, 5)) or mrel == 0
     assert not (mrel == 1 and (f == 5 or g == 5))
     assert tier() != "quick" or (pres in (1, 15) and g in (0, 4) and f in (1, 4) and dstate in (0, 5, 6) and mrel != 1 and (entry <= 1 or (strat == 1 and didx == 1 and pstate == 0)))
+    assert tier() == "quick" or (pres in (1, 3, 15) and g in (0, 1, 4, 5) and mrel != 1 and (dstate in (0, 5, 6) or g in (0, 4)) and (pstate == 0 or g == 0))   # sized to ~10 min on 16 cores
     fresh_path()
     entry, pres, f, g, mrel, dstate, pstate, strat, didx, recursive = ci(entry, 0, 3), ci(pres, 0, 15), ci(f, 0, 5), ci(g, 0, 5), ci(mrel, 0, 2), ci(dstate, 0, 6), pick([0, 4, 5], pstate), ci(strat, 0, 1), pick([0, 1, 3], didx), cb(recursive)
     with nt():
